@@ -268,6 +268,7 @@ func (f *ELFront) SetNext(r *Requests) {
 }
 func (f *ELFront) AddFault(ft *Fault) { f.mu.Lock(); f.faults = append(f.faults, ft); f.mu.Unlock() }
 func (f *ELFront) ClearFaults()       { f.mu.Lock(); f.faults = nil; f.mu.Unlock() }
+func (f *ELFront) HasFaults() bool    { f.mu.Lock(); defer f.mu.Unlock(); return len(f.faults) > 0 }
 
 // Calls returns a copy of the call log from index from.
 func (f *ELFront) Calls(from int) []Call {
